@@ -19,6 +19,7 @@ ModelProto.functions signatures vs call nodes.
 """
 from __future__ import annotations
 
+import contextlib
 import hashlib
 import json
 import warnings
@@ -34,15 +35,22 @@ from common import Check
 META = {
     "ready": True,
     "level": "proof",
-    "technique": "Lean 4 theorems (term language with functions: inlining; FunctionKey construction; registry "
-                 "machine invariant over all call histories) + run-time correspondence of the real "
-                 "FunctionRegistry/_lower_and_call with the Lean registry machine through a line-protocol driver; "
-                 "ORT(decorated)=ORT(undecorated)=JAX bit-exact oracle",
+    "technique": "Lean 4 theorems (term language with functions: inlining; FunctionKey construction incl. its flattened "
+                 "tuple layout; registry machine invariant over all call histories; _allocate_friendly_name over all "
+                 "allocation histories) + table of live FunctionKey fields / component responses regenerated into "
+                 "Gen/C07.lean with decide-obligations + run-time correspondence of the real "
+                 "FunctionRegistry/_lower_and_call/_allocate_friendly_name with the Lean machines through a "
+                 "line-protocol driver; ORT(decorated)=ORT(undecorated)=JAX bit-exact oracle",
     "level_text": "Kernel-checked: inline_sound (replacing every call by its body preserves evaluation, any nesting "
                   "depth, every operator interpretation); key_injective (equal FunctionKeys => equal target, input "
                   "shapes+dtypes, every keyword capture with its bytes, same instance / equal full state, digests "
                   "assumed injective); shared_only_if_equal_key/_components and arity_agrees for ALL histories of "
-                  "enter/exit events; domain_name_unique for namespaces of equal depth. The full-strength 'equal key "
+                  "enter/exit events; encKey_injective (the nested Python tuple determines the model key); "
+                  "structure_of_key / shared_only_if_equal_key_full / never_shared_if_{dtype,symbol_pattern,kwarg_order}_"
+                  "differs WITHOUT digest assumptions; domain_name_unique_keys (different keys never get one (domain, "
+                  "name), any namespace depth, decimal counters, base != 'unique') and alloc_history_unique over all "
+                  "allocator histories; live dataclass fields = model fields and every function-changing component is "
+                  "separated by the field the model names (GenProps, decide). The full-strength 'equal key "
                   "=> equal callee state' is refuted in Lean for the default mode (mutated instance) and replayed on "
                   "the real code (known finding).",
     "level_note": "Trusted: Lean kernel + 3 standard axioms; digest injectivity (SHA-1, hash(bytes)); the harness that "
@@ -53,7 +61,7 @@ META = {
     "design_ref": "DESIGN.md §3 C07",
 }
 
-MODS = ["J2O.Props.C07"]
+MODS = ["J2O.Props.C07", "J2O.Props.C07Key", "J2O.GenProps.C07"]
 
 
 # ----------------------------------------------------------------------------- instrumentation
@@ -341,7 +349,33 @@ def real_view(tap: Tap) -> list[dict]:
             "def_out": len(getattr(fdef, "outputs", []) or []) if fdef is not None else None,
             "call": fr.get("call_node"),
             "depth": fr.get("depth"),
+            "key": fr.get("real_key"),
         })
+    return out
+
+
+def live_key_fields() -> list[str]:
+    """names of the dataclass fields of the live FunctionKey, in declaration order"""
+    import dataclasses
+    import jax2onnx.converter.function_scope as fs
+    return [f.name for f in dataclasses.fields(fs.FunctionKey)]
+
+
+MODEL_FIELD_COLUMN = {"qualified_name": "q", "input_sig": "i", "capture_sig": "c"}
+
+
+def _first_equal(vals: list) -> list[int]:
+    out = []
+    for i, v in enumerate(vals):
+        k = i
+        for j in range(i):
+            try:
+                if vals[j] == v:
+                    k = j
+                    break
+            except Exception:
+                pass
+        out.append(k)
     return out
 
 
@@ -350,12 +384,28 @@ def compare(real: list[dict], answers: list[str]) -> dict:
     model = []
     for a in answers:
         parts = a.split(" ")
-        if parts[0] not in ("hit", "miss") or len(parts) != 6:
+        if parts[0] not in ("hit", "miss") or len(parts) != 10:
             raise RuntimeError(f"driver answer not understood: {a!r}")
         model.append({"hit": parts[0] == "hit", "idx": int(parts[1]), "name": parts[2], "domain": parts[3],
-                      "n_in": int(parts[4]), "n_out": int(parts[5])})
-    res = {"unsound": [], "finer": [], "naming": [], "arity": []}
+                      "n_in": int(parts[4]), "n_out": int(parts[5]), "k": int(parts[6]), "q": int(parts[7]),
+                      "i": int(parts[8]), "c": int(parts[9])})
+    res = {"unsound": [], "finer": [], "naming": [], "arity": [], "key_unsound": [], "key_finer": 0}
     n = len(real)
+    # ---- the keys themselves, whole and field by field: live-equal => model-equal
+    keys = [r.get("key") for r in real]
+    if all(k is not None for k in keys):
+        cols = [("<whole key>", _first_equal(keys), [m["k"] for m in model])]
+        for f in live_key_fields():
+            col = MODEL_FIELD_COLUMN.get(f)
+            if col is not None:       # a field the model does not know is an obligation of GenProps/C07.lean
+                cols.append((f, _first_equal([getattr(k, f, None) for k in keys]), [m[col] for m in model]))
+        for f, live_cls, model_cls in cols:
+            for i in range(n):
+                for j in range(i + 1, n):
+                    if live_cls[i] == live_cls[j] and model_cls[i] != model_cls[j]:
+                        res["key_unsound"].append({"field": f, "sites": [i, j]})
+                    elif f == "<whole key>" and live_cls[i] != live_cls[j] and model_cls[i] == model_cls[j]:
+                        res["key_finer"] += 1
     for i in range(n):
         for j in range(i + 1, n):
             r_same = (real[i]["domain"], real[i]["name"]) == (real[j]["domain"], real[j]["name"])
@@ -455,6 +505,122 @@ def desc_id(desc: dict) -> str:
     return hashlib.sha1(json.dumps(desc, sort_keys=True).encode()).hexdigest()[:10]
 
 
+# ----------------------------------------------------------------------------- Gen/C07.lean (tie T)
+
+GEN_PATH = common.LEAN / "J2O/Gen/C07.lean"
+
+
+@contextlib.contextmanager
+def gen_lock():
+    """Serialises (write Gen/C07.lean -> build -> audit) between concurrent C07 runs on DIFFERENT trees (seed tests
+    in parallel): each run's obligations are built against its own table."""
+    import fcntl
+    with open(common.LEAN / ".c07_gen.lock", "w") as f:
+        fcntl.flock(f, fcntl.LOCK_EX)
+        try:
+            yield
+        finally:
+            fcntl.flock(f, fcntl.LOCK_UN)
+
+
+def label_of(desc: dict) -> str:
+    if desc["pattern"] == "probe":
+        return f"probe:{desc['id']}"
+    return f"{desc['pattern']}:{desc.get('kind', desc.get('outer'))}:{desc.get('diff', desc.get('variant'))}"
+
+
+def response_of(obs: dict) -> list[str]:
+    """live dataclass fields whose value differs between the first two call sites of a cover program"""
+    keys = [fr.get("real_key") for fr in obs["tap"].frames[:2]]
+    if not obs.get("dec_ok") or len(keys) < 2 or any(k is None for k in keys):
+        return ["<no-export>"]
+    return [f for f in live_key_fields() if getattr(keys[0], f, None) != getattr(keys[1], f, None)]
+
+
+def write_gen(cover_obs: list) -> dict:
+    """Regenerate lean/J2O/Gen/C07.lean from the live code: the dataclass fields of FunctionKey and, per cover
+    program (two call sites differing in exactly one component), the fields that told the two sites apart."""
+    fields = live_key_fields()
+    rows = [(c["component"], c["mode"], label_of(c["desc"]), response_of(obs)) for c, obs in cover_obs]
+    items = ["(" + ", ".join([common.lean_str(a), common.lean_str(b), common.lean_str(l),
+                              "[" + ", ".join(common.lean_str(f) for f in r) + "]"]) + ")" for a, b, l, r in rows]
+    src = ("/- GENERATED by harness/props/c07.py from the live jax2onnx on every run — do not edit.\n"
+           "   liveKeyFields : dataclasses.fields(FunctionKey)\n"
+           "   liveResponse  : (component, mode, cover program, key fields whose value differs between the two call\n"
+           "                    sites of that program) -/\n"
+           "namespace J2O.C07.Gen\n\n"
+           "def liveKeyFields : List String := [" + ", ".join(common.lean_str(f) for f in fields) + "]\n\n"
+           "def liveResponse : List (String × String × String × List String) := "
+           + common.lean_list(items, per_line=1) + "\n\nend J2O.C07.Gen\n")
+    common.write_if_changed(GEN_PATH, src)
+    return {"fields": fields, "rows": rows}
+
+
+def generate() -> dict:
+    import c07_progs
+    cover_obs = [(c, observe(c["desc"])) for c in c07_progs.cover()]
+    with gen_lock():
+        return write_gen(cover_obs)
+
+
+# ----------------------------------------------------------------------------- allocator histories (tie H, direct)
+
+
+def _pool_plugins():
+    import c07_progs
+    ps, _ = _my_plugins()
+    out = []
+    for m in c07_progs.ALLOC_POOL:
+        pl = ps.PLUGIN_REGISTRY.get(f"onnx_fn::{c07_progs.MY_MODULE}.{m['attr']}")
+        if pl is None:
+            return None
+        out.append((m, pl))
+    return out
+
+
+def gen_alloc_history(rng, n_pool: int) -> list[int]:
+    """pattern-directed: a few members (so that counters advance), biased to members that share a friendly name"""
+    members = rng.sample(list(range(n_pool)), rng.choice([2, 3, 4, 6]))
+    return [rng.choice(members) for _ in range(rng.choice([3, 5, 8, 12]))]
+
+
+def run_alloc_history(hist: list[int]) -> Optional[dict]:
+    """Drive the live `_allocate_friendly_name` over one fresh context; None if it is not addressable."""
+    import types
+    import c07_progs
+    pool = _pool_plugins()
+    if pool is None:
+        return None
+    ctx = types.SimpleNamespace()
+    live, reqs = [], []
+    for i in hist:
+        m, pl = pool[i]
+        alloc = getattr(pl, "_allocate_friendly_name", None)
+        if alloc is None:
+            return None
+        name, domain = alloc(ctx)
+        live.append([str(name), str(domain)])
+        reqs.append(c07_progs.pool_request(m))
+    return {"history": hist, "requests": reqs, "live": live}
+
+
+def alloc_driver_lines(res: dict) -> list[str]:
+    return [json.dumps({"op": "reset"})] + [json.dumps(dict(r, op="alloc")) for r in res["requests"]]
+
+
+def alloc_verdict(res: dict, answers: list[str]) -> dict:
+    model = [a.split(" ") for a in answers[1:]]
+    out = {"collisions": [], "differs": []}
+    live = res["live"]
+    for i in range(len(live)):
+        for j in range(i + 1, len(live)):
+            if live[i] == live[j]:
+                out["collisions"].append([i, j])
+        if i < len(model) and model[i] != live[i]:
+            out["differs"].append({"step": i, "live": live[i], "model": model[i]})
+    return out
+
+
 # ----------------------------------------------------------------------------- the check
 
 
@@ -462,10 +628,11 @@ def run(chk: Check) -> None:
     import c07_progs
     rng = common.Rng(chk.seed)
     thorough = chk.tier == "thorough"
-    proved = chk.prove(MODS, checker=thorough)
 
     n_prog = 100 if not thorough else 700
-    descs = c07_progs.generate(rng, n_prog)
+    cover = c07_progs.cover()
+    descs = c07_progs.generate(rng, n_prog)          # starts with the cover programs
+    assert [c["desc"] for c in cover] == descs[:len(cover)]
     probes = [{"pattern": "probe", "id": pid} for pid in c07_progs.PROBES]
 
     all_obs = []
@@ -478,20 +645,77 @@ def run(chk: Check) -> None:
         spans.append((len(lines), len(dl)))
         lines += dl
         all_obs.append(obs)
+
+    # ---- tie T: the live key fields and the response table go to Gen/C07.lean, then the obligations are built
+    with gen_lock():
+        gen = write_gen(list(zip(cover, all_obs[:len(cover)])))
+        proved = chk.prove(MODS, checker=thorough)
+    chk.info("live_key_fields", gen["fields"])
+    chk.info("live_response", {f"{l} [{a}/{b}]": r for a, b, l, r in gen["rows"]})
+
+    # ---- allocator histories on the live `_allocate_friendly_name`
+    n_hist = 150 if not thorough else 1500
+    alloc_runs = []
+    alloc_spans = []
+    alloc_ok = True
+    for _ in range(n_hist):
+        res = run_alloc_history(gen_alloc_history(rng, len(c07_progs.ALLOC_POOL)))
+        if res is None:
+            alloc_ok = False
+            break
+        al = alloc_driver_lines(res)
+        alloc_spans.append((len(lines), len(al)))
+        lines += al
+        alloc_runs.append(res)
+    if not alloc_ok:
+        chk.log("live allocator is not addressable as FunctionPlugin._allocate_friendly_name: name allocation is tied "
+                "through the exports only (names patterns)")
+    chk.info("allocator_histories", len(alloc_runs))
+
     answers = common.run_driver("C07", lines)
-    chk.add("traces_validated_against_impl", len(all_obs))
+    chk.add("traces_validated_against_impl", len(all_obs) + len(alloc_runs))
 
     dist: dict[str, int] = {}
     stats = {"programs": 0, "call_sites": 0, "real_hits": 0, "definitions": 0, "nested_sites": 0,
              "drift_real_finer_pairs": 0, "runtime_param_sites": 0, "max_depth": 0}
     found_concrete = False
     corr_broken: list[dict] = []
+
+    def finding(key, what, rep):
+        # a concrete failing input counts as "found" for a broken obligation only if it is NOT a listed finding
+        nonlocal found_concrete
+        listed = chk.finding(key, what, rep)
+        if not listed:
+            found_concrete = True
+        return listed
+
+    alloc_stats = {"allocations": 0, "collisions": 0, "model_differs": 0}
+    for res, (start, ln) in zip(alloc_runs, alloc_spans):
+        v = alloc_verdict(res, answers[start:start + ln])
+        alloc_stats["allocations"] += len(res["live"])
+        hid = hashlib.sha1(json.dumps(res["history"]).encode()).hexdigest()[:10]
+        chk.count({"label": "alloc_history", "len": len(res["history"]), "members": len(set(res["history"])),
+                   "domains": sorted({d for _, d in res["live"]})[:6]}, nontrivial=len(res["history"]) >= 2)
+        if v["collisions"]:
+            alloc_stats["collisions"] += 1
+            if alloc_stats["collisions"] <= 3:
+                i, j = v["collisions"][0]
+                finding({"kind": "alloc_collision", "history": hid},
+                            f"_allocate_friendly_name returned {res['live'][i]} twice (calls {i} and {j}) for requests "
+                            f"{res['requests'][i]} / {res['requests'][j]}",
+                            {"alloc_history": res["history"], "requests": res["requests"], "live": res["live"],
+                             "how": "vcheck.py C07 --replay <this file>"})
+        elif v["differs"]:
+            alloc_stats["model_differs"] += 1
+            corr_broken.append({"kind": "allocator", "alloc_history": res["history"], "requests": res["requests"],
+                                "detail": v["differs"][:4]})
+    chk.info("allocator_statistics", alloc_stats)
+
     for obs, (start, ln) in zip(all_obs, spans):
         desc = obs["desc"]
         tap: Tap = obs["tap"]
         is_probe = desc["pattern"] == "probe"
-        label = f"probe:{desc['id']}" if is_probe else f"{desc['pattern']}:{desc.get('kind', desc.get('outer'))}:" \
-                                                       f"{desc.get('diff', desc.get('variant'))}"
+        label = label_of(desc)
         dist[label.split(":")[0] + ":" + label.split(":")[-1]] = dist.get(label.split(":")[0] + ":" + label.split(":")[-1], 0) + 1
         ans = [a for a, l in zip(answers[start:start + ln], lines[start:start + ln]) if '"enter"' in l[:16]]
         real = real_view(tap)
@@ -506,9 +730,8 @@ def run(chk: Check) -> None:
                 raise RuntimeError(f"generator produced a program whose undecorated export or eager run fails: "
                                    f"{desc} -> {obs.get('und_error')} {obs.get('jax_error')}")
         if not obs["dec_ok"]:
-            found_concrete = True
             chk.count({"label": label, "outcome": "export_raises", "error": obs["dec_error"]}, nontrivial=True)
-            chk.finding(dict(base_key, kind="export_raises", error=obs["dec_error"]),
+            finding(dict(base_key, kind="export_raises", error=obs["dec_error"]),
                         f"decorated export raises {obs['dec_error']} while the undecorated export succeeds ({label})",
                         dict(replay, error=obs.get("dec_error_text")))
             continue
@@ -516,20 +739,19 @@ def run(chk: Check) -> None:
         # ---- numeric oracle + proto check (always)
         nv = numeric_verdict(obs)
         if nv is not None:
-            found_concrete = True
-            chk.finding(dict(base_key, kind=nv["kind"]),
+            finding(dict(base_key, kind=nv["kind"]),
                         f"decorated export disagrees with {nv.get('against', 'ORT')} ({label}): {nv}",
                         dict(replay, verdict=nv))
         if obs.get("fn_problems"):
-            found_concrete = True
-            chk.finding(dict(base_key, kind="function_signature"),
+            finding(dict(base_key, kind="function_signature"),
                         f"ModelProto.functions vs call nodes ({label}): {obs['fn_problems'][:3]}",
                         dict(replay, problems=obs["fn_problems"]))
 
         # ---- correspondence with the Lean registry machine
         if len(ans) != len(real):
             raise RuntimeError("driver/trace length mismatch")
-        cmp_ = compare(real, ans) if real else {"unsound": [], "finer": [], "naming": [], "arity": [], "model": []}
+        cmp_ = compare(real, ans) if real else {"unsound": [], "finer": [], "naming": [], "arity": [], "model": [],
+                                                "key_unsound": [], "key_finer": 0}
         n_defs_real = len({(r["domain"], r["name"]) for r in real})
         if obs.get("n_functions") is not None and real and obs["n_functions"] != n_defs_real:
             cmp_["arity"].append({"kind": "count", "functions_in_model": obs["n_functions"],
@@ -550,23 +772,36 @@ def run(chk: Check) -> None:
         if cmp_["unsound"]:
             # the property's second sentence, observed directly on the real code: one definition for two
             # call sites whose components differ
-            found_concrete = True
             i, j = cmp_["unsound"][0]
             si, sj = tap.frames[i]["site"], tap.frames[j]["site"]
             differ = [k for k in ("target", "inSig", "caps", "injected", "callee") if si[k] != sj[k]]
-            chk.finding(dict(base_key, kind="shared_unequal"),
+            finding(dict(base_key, kind="shared_unequal"),
                         f"call sites {i} and {j} share definition {real[i]['domain']}::{real[i]['name']} although "
                         f"they differ in {differ} ({label})",
-                        dict(replay, sites=[si, sj], real=real, model=cmp_["model"]))
+                        dict(replay, sites=[si, sj], real=[{k: v for k, v in r.items() if k != "key"} for r in real],
+                             model=cmp_["model"]))
+        stats["key_pairs_live_finer"] = stats.get("key_pairs_live_finer", 0) + cmp_["key_finer"]
+        if cmp_["key_unsound"]:
+            # two call sites with EQUAL live keys (or equal live key fields) whose ground-truth components differ in
+            # what that field holds: the key construction lost a component
+            ku = cmp_["key_unsound"][0]
+            i, j = ku["sites"]
+            si, sj = tap.frames[i]["site"], tap.frames[j]["site"]
+            differ = [k for k in ("target", "inSig", "caps", "injected", "callee") if si[k] != sj[k]]
+            flds = sorted({k["field"] for k in cmp_["key_unsound"]})
+            finding(dict(base_key, kind="key_unequal"),
+                        f"call sites {i} and {j} have equal live FunctionKey {flds} although they differ in {differ} "
+                        f"({label})",
+                        dict(replay, sites=[si, sj], fields=flds, live_keys=[repr(real[i]["key"])[:400],
+                                                                              repr(real[j]["key"])[:400]]))
         for kind in ("naming", "arity"):
             if cmp_[kind]:
                 item = {"desc": desc, "kind": kind, "detail": cmp_[kind][:5],
-                        "real": [{k: v for k, v in r.items()} for r in real],
+                        "real": [{k: v for k, v in r.items() if k != "key"} for r in real],
                         "model": cmp_["model"], "numeric": nv}
                 if kind == "arity" and any(d.get("kind") in ("real", "target", "count") for d in cmp_[kind]):
                     # directly an observable of the property on the real code
-                    found_concrete = True
-                    chk.finding(dict(base_key, kind="arity_mismatch"),
+                    finding(dict(base_key, kind="arity_mismatch"),
                                 f"call node and definition disagree in arity/identity ({label}): {cmp_[kind][:2]}",
                                 dict(replay, detail=cmp_[kind]))
                 elif nv is None:
@@ -597,7 +832,12 @@ def run(chk: Check) -> None:
         "ONNX Runtime evaluates a call node as its FunctionProto body applied to the arguments (the model's evalFn)",
         "float32 arithmetic on the generated dyadic values is exact (so the oracle needs no tolerance)",
     ]
-    chk.coverage["rule"] = ("programs: every (block kind x differing component) pair pattern first (7 class kinds + 2 "
+    chk.coverage["rule"] = ("first the FIXED cover set (one two-site program per component x mode: weight, static, nested "
+                            "static, kwarg value/presence/order/object, shape, dtype, symbol pattern, identity, friendly "
+                            "name; source of Gen/C07.lean); allocator histories: 150 random call sequences over a pool of "
+                            "18 targets sharing friendly names across targets/namespaces/modes, on the live "
+                            "_allocate_friendly_name; then "
+                            "programs: every (block kind x differing component) pair pattern first (7 class kinds + 2 "
                             "function kinds x {same instance, identity, weight, static alpha, static mode, kwarg value, "
                             "kwarg presence, input shape, input dtype}), every 5th program nested (outer calls two inner "
                             "functions; 2-3 levels), options third call/swap/chain/symbolic batch/input_params; then the "
@@ -609,8 +849,22 @@ def run(chk: Check) -> None:
 def replay(path: str) -> int:
     rep = json.loads(open(path).read())
     print(json.dumps({k: v for k, v in rep.items() if k != "cases"}, indent=1)[:3000])
-    descs = [rep["desc"]] if "desc" in rep else [c["desc"] for c in rep.get("cases", [])]
+    descs = [rep["desc"]] if "desc" in rep else [c["desc"] for c in rep.get("cases", []) if "desc" in c]
     bad = 0
+    hists = ([rep["alloc_history"]] if "alloc_history" in rep else []) + \
+        [c["alloc_history"] for c in rep.get("cases", []) if "alloc_history" in c]
+    for hist in hists:
+        res = run_alloc_history(hist)
+        if res is None:
+            print("allocator not addressable")
+            continue
+        v = alloc_verdict(res, common.run_driver("C07", alloc_driver_lines(res)))
+        print("allocator history:", hist)
+        for r, l in zip(res["requests"], res["live"]):
+            print("  ", r, "->", l)
+        print(" collisions / differs from the model:", v["collisions"], v["differs"])
+        if v["collisions"] or v["differs"]:
+            bad += 1
     for desc in descs:
         obs = observe(desc)
         tap = obs["tap"]
@@ -626,7 +880,9 @@ def replay(path: str) -> int:
         print(" function/call problems:", obs.get("fn_problems"))
         print(" real  :", [(r["hit"], r["domain"]) for r in real])
         print(" model :", [(m["hit"], m["domain"]) for m in cmp_.get("model", [])])
-        print(" unsound/naming/arity:", cmp_.get("unsound"), cmp_.get("naming"), cmp_.get("arity"))
-        if nv is not None or obs.get("fn_problems") or any(cmp_.get(k) for k in ("unsound", "naming", "arity")):
+        print(" unsound/naming/arity/key:", cmp_.get("unsound"), cmp_.get("naming"), cmp_.get("arity"),
+              cmp_.get("key_unsound"))
+        if nv is not None or obs.get("fn_problems") or any(cmp_.get(k) for k in ("unsound", "naming", "arity",
+                                                                                 "key_unsound")):
             bad += 1
     return 1 if bad else 0
